@@ -39,6 +39,7 @@ import NxsModel.Spec.StreamWire
 import NxsModel.Spec.Wire
 import NxsModel.Lemmas.Stream
 import NxsModel.Lemmas.Serial
+import NxsModel.Lemmas.R7Stream
 namespace Nxs.C04
 open Nxs Nxs.Stream Nxs.Spec Nxs.Spec.StreamWire Nxs.Gen.Ids
 
@@ -298,5 +299,113 @@ example :
        ⟨1, dtCOMPLEX, 7, 0, [.f32 0x3f800000#32, .bytes [0x61, 0x62], .bool true], []⟩] =
       some [0, 0xff, 0xfe, 0x41, 1, 2, 255, 1, 0x00, 0x00, 0x80, 0x3f, 0x61, 0x62, 1] := by
   decide +kernel
+
+/-! ### round 7: sizes, unique decodability, concatenation, irrelevant channels -/
+
+/-- "consumed exactly to its end", quantitatively: a well-formed sample occupies exactly
+    1 + (size of the type) × vdim + mlen bytes (`Stream.sampleSize`, computed from the layout alone), and the
+    body of a well-formed payload is as long as the sum of the sizes of its samples — for every layout, type,
+    dimension, metadata length and sample list -/
+theorem payload_length (layout : List Chan) (user : List UserType) (ss : List Sample) (body : Bytes)
+    (hw : wireOf layout user ss = some body) :
+    body.length = (ss.map (fun s => Stream.sampleSize layout user s.chan)).sum ∧
+    ∀ s b, wireSample layout user s = some b → b.length = Stream.sampleSize layout user s.chan :=
+  ⟨Stream.wireOf_length hw, fun _ _ h => Stream.wireSample_length h⟩
+
+/-- unique decodability of the stream format: a payload body is the encoding of AT MOST ONE sample list
+    (for a fixed layout), and a well-formed sample is self-delimiting — bytes that start with it determine the
+    sample and where it ends, whatever follows -/
+theorem wire_unique (layout : List Chan) (user : List UserType) :
+    (∀ (ss₁ ss₂ : List Sample) (body : Bytes), wireOf layout user ss₁ = some body →
+      wireOf layout user ss₂ = some body → ss₁ = ss₂) ∧
+    (∀ (s₁ s₂ : Sample) (b₁ b₂ r₁ r₂ : Bytes), wireSample layout user s₁ = some b₁ →
+      wireSample layout user s₂ = some b₂ → b₁ ++ r₁ = b₂ ++ r₂ → s₁ = s₂ ∧ b₁ = b₂ ∧ r₁ = r₂) :=
+  ⟨fun _ _ _ h₁ h₂ => Stream.wireOf_injective h₁ h₂,
+   fun _ _ _ _ _ _ h₁ h₂ h => Stream.wireSample_self_delimiting h₁ h₂ h⟩
+
+/-- the decoder is injective on well-formed payloads: two well-formed payloads with the same decoding are the
+    same bytes (nothing on the wire is lost by decoding: flags byte, every value byte, every metadata byte) -/
+theorem decode_injective (layout : List Chan) (user : List UserType) (f₁ f₂ : Byte) (ss₁ ss₂ : List Sample)
+    (b₁ b₂ : Bytes) (h₁ : wireOf layout user ss₁ = some b₁) (h₂ : wireOf layout user ss₂ = some b₂)
+    (h : Stream.streamDecode layout user (f₁ :: b₁) = Stream.streamDecode layout user (f₂ :: b₂)) :
+    f₁ :: b₁ = f₂ :: b₂ := by
+  rw [decode_wire layout user f₁ ss₁ b₁ h₁, decode_wire layout user f₂ ss₂ b₂ h₂] at h
+  have h3 := Except.ok.inj h
+  injection h3 with h4
+  injection h4 with h5 h6
+  subst h6
+  rw [h₁] at h₂
+  rw [BitVec.eq_of_toNat_eq h5, Option.some.inj h₂]
+
+/-- compositionality: the decoding of two well-formed payload bodies one after the other is the concatenation
+    of their decodings; conversely the payload of a concatenated sample list splits into the two payloads -/
+theorem decode_concat (layout : List Chan) (user : List UserType) (flags : Byte) (ss₁ ss₂ : List Sample) :
+    (∀ b₁ b₂, wireOf layout user ss₁ = some b₁ → wireOf layout user ss₂ = some b₂ →
+      Stream.streamDecode layout user (flags :: (b₁ ++ b₂)) = .ok (some (flags.toNat, ss₁ ++ ss₂))) ∧
+    (∀ b, wireOf layout user (ss₁ ++ ss₂) = some b →
+      ∃ b₁ b₂, wireOf layout user ss₁ = some b₁ ∧ wireOf layout user ss₂ = some b₂ ∧ b = b₁ ++ b₂) :=
+  ⟨fun _ _ h₁ h₂ => decode_wire layout user flags _ _ (wireOf_append h₁ h₂),
+   fun _ h => Stream.wireOf_append_inv h⟩
+
+/-- channels the payload does not mention are irrelevant: a client whose layout agrees with `layout` on the
+    channels that occur in the samples (other channels added, removed, retyped) decodes the payload to the same
+    result -/
+theorem decode_layout_irrelevant (layout layout' : List Chan) (user : List UserType) (flags : Byte)
+    (ss : List Sample) (body : Bytes) (hw : wireOf layout user ss = some body)
+    (hag : ∀ s ∈ ss, layout[s.chan]? = layout'[s.chan]?) :
+    Stream.streamDecode layout' user (flags :: body) = .ok (some (flags.toNat, ss)) := by
+  apply decode_wire
+  rw [← Stream.wireOf_layout_congr hag]
+  exact hw
+
+/-- non-vacuity: the three-sample payload above is 16 = 5 + 6 + 5 bytes; channel sizes 6 and 5 -/
+example : Stream.sampleSize [⟨tyINT16, 2, 1⟩, ⟨tyB16, 1, 0⟩] [] 0 = 6 ∧
+    Stream.sampleSize [⟨tyINT16, 2, 1⟩, ⟨tyB16, 1, 0⟩] [] 1 = 5 ∧
+    Stream.sampleSize [⟨tyCHAR, 3, 3⟩, ⟨20, 7, 0⟩] [⟨20, [(1, .f), (2, .s), (1, .bool)], dtCOMPLEX⟩] 1 = 8 := by
+  decide +kernel
+/-- the same payload decodes under a layout with a third, unused channel added (`decode_layout_irrelevant`) -/
+example :
+    Stream.streamDecode [⟨tyINT16, 2, 1⟩, ⟨tyB16, 1, 0⟩, ⟨tyDOUBLE, 9, 200⟩] []
+      [9, 1, 0x00, 0x00, 0xff, 0xff, 0, 0xfe, 0xff, 0x02, 0x01, 7, 1, 0x00, 0x80, 0x01, 0x00] =
+      .ok (some (9, [⟨1, dtNUM, 1, 0, [.fixed (-65536) 16], []⟩,
+        ⟨0, dtNUM, 2, 1, [.int (-2), .int 258], [7]⟩, ⟨1, dtNUM, 1, 0, [.fixed 98304 16], []⟩])) := by
+  decide +kernel
+
+/-! ### round 7: payloads OUTSIDE `wireOf` (section 5 "not proved": truncated, unknown channel) -/
+
+/-- a payload whose last sample is cut short — well-formed samples `ss`, then a well-formed sample `s` of which only
+    the first `k` bytes (channel byte included, `1 ≤ k <` its size) arrived — is REJECTED with `struct.error`:
+    no sample list is returned, in particular not the samples in front, and never a sample with made-up values.
+    For every layout, type, dimension, metadata length and cut position. -/
+theorem decode_truncated_fails (layout : List Chan) (user : List UserType) (flags : Byte) (ss : List Sample)
+    (body : Bytes) (s : Sample) (b : Bytes) (k : Nat) (hw : wireOf layout user ss = some body)
+    (hs : wireSample layout user s = some b) (hk1 : 1 ≤ k) (hk : k < b.length) :
+    Stream.streamDecode layout user (flags :: (body ++ b.take k)) = .error .structError := by
+  have hne : b.take k ≠ [] := by
+    intro h0
+    have := congrArg List.length h0
+    simp only [List.length_take, List.length_nil] at this
+    omega
+  show (Stream.decodeLoop layout user (body ++ b.take k).length (body ++ b.take k)).bind _ = _
+  rw [Stream.decodeLoop_wire_then_error _ hw (Nat.le_refl _) hne (Stream.decodeOne_truncated k hs hk1 hk)]
+  rfl
+
+/-- a channel byte the layout does not know, behind any well-formed samples and followed by anything, makes the
+    decoder fail with the `assert` of the channel lookup — nothing is returned -/
+theorem decode_unknown_channel_fails (layout : List Chan) (user : List UserType) (flags cid : Byte)
+    (ss : List Sample) (body r : Bytes) (hw : wireOf layout user ss = some body)
+    (hc : layout[cid.toNat]? = none) :
+    Stream.streamDecode layout user (flags :: (body ++ cid :: r)) = .error .assertion := by
+  show (Stream.decodeLoop layout user (body ++ cid :: r).length (body ++ cid :: r)).bind _ = _
+  rw [Stream.decodeLoop_wire_then_error _ hw (Nat.le_refl _) (by simp) (Stream.decodeOne_unknown cid r hc)]
+  rfl
+
+/-- non-vacuity: the 16-byte body above cut after 13 bytes (2 of the 5 bytes of the last sample), and with a
+    sample of the unknown channel 7 appended (the real decoder: `struct.error`, `AssertionError`) -/
+example :
+    Stream.streamDecode [⟨tyINT16, 2, 1⟩, ⟨tyB16, 1, 0⟩] []
+      [9, 1, 0x00, 0x00, 0xff, 0xff, 0, 0xfe, 0xff, 0x02, 0x01, 7, 1, 0x00] = .error .structError ∧
+    Stream.streamDecode [⟨tyINT16, 2, 1⟩, ⟨tyB16, 1, 0⟩] []
+      [9, 1, 0x00, 0x00, 0xff, 0xff, 7, 0x01, 0x02] = .error .assertion := by decide +kernel
 
 end Nxs.C04
